@@ -315,6 +315,9 @@ def _gen_str(draw, spec, mut):
             i = draw(st.integers(0, len(v)))
             cands.append(v[:i] + outside + v[i + 1:] if v else outside)
             cands.append(v[:i] + outside + v[i + 1:] if v else outside)
+            if len(v) >= 3:
+                cands.append(v[:1] + outside + v[2:])                      # strictly inside the string
+                cands.append(v[:len(v) // 2] + outside + v[len(v) // 2 + 1:])
         if spec.get("substr"):
             s = spec["substr"]
             cands.append(v.replace(s, s[:-1], 1))
@@ -333,6 +336,11 @@ def _safe_bounds(lf):
 
 def _gen_list(draw, spec, mut):
     near = mut is not None
+    # decide *before* the members are built whether the near-miss happens at this level (otherwise the
+    # first member would nearly always take the budget and list-level steps would be starved)
+    here = near and mut.take(draw, "list:near")
+    if here:
+        mut = None
     form = spec["form"]
     lf = spec.get("len")
     if form in ("untyped", "ellipsis", "typed"):
@@ -363,10 +371,12 @@ def _gen_list(draw, spec, mut):
             else:
                 off = draw(st.integers(0, len(pad)))
                 v = pad[:off] + body + pad[off:]
-    if near and mut.take(draw, "list:near"):
+    if here:
         ops = ["tuple", "append", "none"]
         if v:
-            ops += ["drop", "drop-first", "dup", "insert", "swap", "junk-elem"]
+            ops += ["drop", "drop-first", "dup", "insert", "swap", "junk-elem", "twin-elem", "dup-as-twin"]
+            if any(type(x) in (int, float, bool) for x in v):
+                ops += ["dup-as-twin", "dup-as-twin", "twin-elem"]      # numbers have equal-valued twins
         if lf is not None and _safe_bounds(lf):
             ops += ["len-lo", "len-hi"]
         op = draw(st.sampled_from(ops))
@@ -397,6 +407,21 @@ def _gen_list(draw, spec, mut):
             w = list(v)
             w[i] = draw(junk_scalar)
             return w
+        if op in ("twin-elem", "dup-as-twin"):
+            # an element replaced by (or followed by) the equal-valued scalar of another type: 1 -> 1.0 -> True
+            numeric = [j for j, y in enumerate(v) if type(y) in (int, float, bool)]
+            i = draw(st.sampled_from(numeric)) if numeric else draw(st.integers(0, len(v) - 1))
+            x = v[i]
+            twin = {int: float, float: int, bool: int}.get(type(x))
+            try:
+                t = twin(x) if twin and x == twin(x) else draw(junk_scalar)
+            except (OverflowError, ValueError):
+                t = draw(junk_scalar)
+            if op == "twin-elem":
+                w = list(v)
+                w[i] = t
+                return w
+            return v[:i + 1] + [t] + v[i + 1:]
         lo, hi = _bounds(lf)
         if op == "len-lo":
             return v[:max(0, lo - 1)] if len(v) >= lo - 1 else v
@@ -414,9 +439,12 @@ _EXTRA_KEYS = ["extra", "zz", 99, "a ", None, ("x",)]
 
 def _gen_dict(draw, spec, mut):
     near = mut is not None
+    here = near and mut.take(draw, "dict:near")
+    if here:
+        mut = None
     if "entries" not in spec:
         v = draw(st.dictionaries(st.sampled_from(["a", "b", 2, None]), junk_member, max_size=3))
-        if near and mut.take(draw, "dict:near"):
+        if here:
             return draw(st.sampled_from([None, list(v.items()), "{}", Zoo("ordereddict")]))
         return v
     ents = spec["entries"]
@@ -430,7 +458,7 @@ def _gen_dict(draw, spec, mut):
     if spec.get("relaxed") and draw(st.booleans()):
         for k in draw(st.lists(st.sampled_from(free), max_size=2, unique_by=repr)):
             v[k] = draw(junk_scalar)
-    if near and mut.take(draw, "dict:near"):
+    if here:
         ops = ["extra", "none", "pairs", "subclass", "subclass-drop"]
         if v:
             ops += ["drop", "drop", "rename", "junk-member"]
